@@ -99,6 +99,10 @@ def explore(scn_file, outdir, tag, mode, runs=1000, bound=2, shards=None, extra=
         a = ["explore", "--scn", scn_file, "--mode", mode, "--runs", str(runs), "--bound", str(bound),
              "--seed", str(seed()), "--part", str(k), "--of", str(shards), "--out", out, "--sched-out", sch,
              "--time-budget", str(TIME_BUDGET)]
+        if mode == "dfs" and not (extra and "--prefix-file" in extra):
+            # the bounded tree is enumerated from a worklist in random order: under a run cap the preemption
+            # points tried are spread over the whole run instead of clustering at its end
+            a += ["--order", "random"]
         if extra:
             a += extra
         jobs.append((a, out, sch))
